@@ -87,7 +87,9 @@ CFG = {
                   "Round 4 (Props/C19C15.lean): list_key_j composes C19 with C15 - in any application state whose focus path runs through a Dynamic list, a j key "
                   "is offered to the list in the capture phase, the list (its executed CaptureEvent) moves the selection and answers ConsumeAndRedraw, and the "
                   "dispatch ends there with redraw and consume taking effect once (no other handler sees the key); else the key goes on along the route. "
-                  "Round 4 (Props/C19Wid.lean, 15 theorems): list_new_body_eq_model, wid_fully_recognised, wid_bodies_as_expected, gen_bodies_parsed, list_rhs_is_gen, "
+                  "Round 4 (Props/C19Wid.lean, 18 theorems): list_selected_visible_body, pager_presents_every_character_body, scrollbar_in_track_body (the clauses "
+                  "end to end for the executed code: New + any history + Draw; Segments=text, Draw, ScrollDown x i, Draw shows every character of every line; "
+                  "bar inside the track), list_new_body_eq_model, wid_fully_recognised, wid_bodies_as_expected, gen_bodies_parsed, list_rhs_is_gen, "
                   "minmax_body_eq_model, list_index_body_eq_model, list_step_body_eq_model (every List method incl. Draw's range loop over the checked "
                   "slice: same state, rows, panics), list_history_body_eq_model, pager_layout_body_eq_model, pager_draw_body_eq_model (state AND window "
                   "cell by cell), pager_scroll_body_eq_model, pager_history_body_eq_model, pager_offset_clamped_body, scrollbar_draw_body_eq_model "
